@@ -104,6 +104,7 @@ type faultConn struct {
 	failReadAt    int32
 	blockAt       int32
 	slowClose     bool
+	failClose     bool
 	release       chan struct{}
 	closed        chan struct{}
 	closeOnce     sync.Once
@@ -141,6 +142,11 @@ func (c *faultConn) Write(b []byte) (int, error) {
 			c.l.add("NetWrite", 0, int(k), "err")
 			return 0, errors.New("injected transport write failure")
 		}
+	}
+	if c.failClose && len(b) > 0 && b[0]&0x0f == websocket.CloseMessage && c.armed.Load() {
+		// the close frame of a local close with a reason does not get out: the connection has to be released all the same
+		c.l.add("NetWrite", 0, -1, "err")
+		return 0, errors.New("injected failure of the close frame's transport write")
 	}
 	if c.slowClose && len(b) > 0 && b[0]&0x0f == websocket.CloseMessage && c.armed.Load() {
 		// a legal schedule made likely: the write call of the close frame returns only after the peer has reacted to the frame
@@ -320,6 +326,7 @@ func runScript(s script) *result {
 		fc.blockAt = 1
 	}
 	fc.slowClose = s.Event == "localCloseReason" && s.K == 1
+	fc.failClose = s.Event == "localCloseReason" && s.K == 2
 	fc.armed.Store(true)
 	sut := ws.NewWebsocketConnection(conn, "ski")
 	res.sut = sut
